@@ -36,7 +36,7 @@ func (a Arch) String() string {
 	case a.ABI == a.OS && a.OS == a.CPU && (a.CPU == "any" || a.CPU == "all"):
 		/* `any` and `all` stand for the whole triple */
 		return a.CPU
-	case short && a.ABI == "gnu" && a.OS == "linux" && a.CPU != "any" && a.CPU != "all":
+	case short && a.ABI == "gnu" && a.OS == "linux" && a.CPU != "any" && a.CPU != "all" && a.CPU != "":
 		/* a bare CPU is implicitly gnu-linux-CPU */
 		return a.CPU
 	case short && a.ABI == "any":
